@@ -643,8 +643,16 @@ fn alt_spelling(uri: &str) -> String {
 /// Legal results of one content change on `text` (`None` = document forgotten).
 fn legal_outcomes(text: &str, e: &Edit) -> BTreeSet<Option<String>> {
     let mut out: BTreeSet<Option<String>> = BTreeSet::new();
-    // dropping the change and forgetting the document is always allowed
-    out.insert(None);
+    // Dropping the change and forgetting the document is what the statement allows for "an edit
+    // it cannot apply". A change that is valid against the text it applies to (or replaces the
+    // whole text) can be applied, and every outcome but "applied" would be an edit gone astray.
+    // (Until session 3 "forgotten" was legal after every change, which - together with the
+    // relaxation for disk activity - excused every document that had been edited since its last
+    // probe from the comparison once a file event had been seen.)
+    let kind = classify_edit(Some(text), e);
+    if kind != "valid" && kind != "full_text" {
+        out.insert(None);
+    }
     let m = DocModel { text: text.to_string() };
     match e.range {
         None => {
